@@ -44,7 +44,13 @@ func applyOps(tag string, cur *Mast, md *symModel, cfg *RemoteConfig, K int, nop
 // C04/C09: after any history, the persisted version satisfies the shape
 // invariants and the height rule, and equals (same Root) the tree obtained by
 // inserting the same entries in ascending order into a fresh tree.
-func HarnessC04a() {
+func HarnessC04a() { harnessC04(0) }
+
+// C04b: the same oracle after an ascending build of N entries (reaching heights the
+// short histories of C04a cannot) followed by K arbitrary operations.
+func HarnessC04b() { harnessC04(verifBound("N")) }
+
+func harnessC04(n int) {
 	K := verifBound("K")
 	bf := uint(verifBound("BF"))
 	st := newVStore("s1")
@@ -52,7 +58,13 @@ func HarnessC04a() {
 	cur, err := NewRoot(&CreateRemoteOptions{BranchFactor: bf}).LoadMast(vctx, cfg)
 	verifAssert("C01.new.err", err == nil)
 	md := &symModel{}
-	cur, md, deleted := applyOps("h", cur, md, cfg, K, verifBound("NOPS"))
+	if n > 0 {
+		buildAscending("build", cur, md, n)
+		if hreq := verifBoundOr("HREQ", -1); hreq >= 0 && int(cur.Height()) != hreq {
+			verifAssume(false)
+		}
+	}
+	cur, md, _ = applyOps("h", cur, md, cfg, K, verifBound("NOPS"))
 	r, err := cur.MakeRoot(vctx)
 	verifAssert("C01.makeroot.err", err == nil)
 	if err != nil {
@@ -65,13 +77,11 @@ func HarnessC04a() {
 	verifAssert("C09.order", rep.orderOK)
 	verifAssert("C09.layers", rep.layersOK)
 	verifAssert("C09.ranges", rep.rangesOK)
-	verifClass("C09.empty-root-stored", !deleted && r.Size == 0 && rep.nodes == 1)
 	verifAssert("C09.no-empty-node", rep.noEmptyOK)
 	verifAssert("C09.size", r.Size == rep.entries)
 	verifAssert("C04.size-model", r.Size == md.size())
 
 	rule := ruleHeight(uint64(bf), r.Size, rep.maxLayer)
-	verifClass("C04.height-kept-after-delete", verifAnd(deleted, verifAnd(r.Size >= ipow(uint64(bf), int(r.Height)), uint64(r.Height) > rule)))
 	verifAssert("C04.height-rule", uint64(r.Height) == rule)
 
 	// reference history: ascending inserts of the same content into a fresh tree, in a fresh store
@@ -90,7 +100,6 @@ func HarnessC04a() {
 		return
 	}
 	verifAssert("C04.same-size", r.Size == r2.Size)
-	verifClass("C04.height-kept-after-delete", verifAnd(deleted, verifAnd(r.Size >= ipow(uint64(bf), int(r.Height)), uint64(r.Height) > rule)))
 	verifAssert("C04.same-height", r.Height == r2.Height)
 	sameLink := false
 	if r.Link == nil || r2.Link == nil {
@@ -98,7 +107,5 @@ func HarnessC04a() {
 	} else {
 		sameLink = verifStrEq(*r.Link, *r2.Link)
 	}
-	verifClass("C04.height-kept-after-delete", verifAnd(deleted, verifAnd(r.Size >= ipow(uint64(bf), int(r.Height)), uint64(r.Height) > rule)))
-	verifClass("C04.empty-vs-emptied-root", r.Size == 0)
 	verifAssert("C04.same-link", sameLink)
 }
